@@ -273,6 +273,8 @@ func runC05(cfg Config) {
 						"gnutar.modes "+recsCase(recs), "", "gnutar.header-mode.filemode-bits")
 				}
 			}
+		} else {
+			gnutarFailed(monitor, err, "gnutar.modes "+recsCase(recs))
 		}
 		rep.Count("gnutar.modes", true, "gnutar-modes")
 	}
@@ -472,7 +474,21 @@ func runC05(cfg Config) {
 					monitor(fmt.Sprintf("gnu-tar output header mode %o does not carry the file's permission/set-id bits %o (%s)", h.Mode, stm&07777, h.Name),
 						caseLine, "", "gnutar.header-mode.filemode-bits")
 				}
+				// the extended attributes of the entry (a PAX header since 8595654)
+				if keys, err := xattr.LList(p); err == nil {
+					onDisk := map[string]string{}
+					for _, k := range keys {
+						v, _ := xattr.LGet(p, k)
+						onDisk[k] = string(v)
+					}
+					if xattrStr(nonEmptyXattrs(onDisk)) != xattrStr(desync.Xattrs(h.Xattrs)) { // (an attribute with an empty value is in the stream, but archive/tar's reader drops it)
+						monitor("gnu-tar output does not carry the extended attributes of "+h.Name, caseLine, xattrStr(desync.Xattrs(h.Xattrs)), "")
+					}
+				}
 			}
+		} else {
+			// (until the repair of the tar-stream legs this failure was silently skipped: it hid the refusal of every entry with an xattr)
+			gnutarFailed(monitor, err, caseLine)
 		}
 		// tar-stream input: the same tree as a GNU tar archive -> catar -> disk
 		if tarStreamOK(src) {
@@ -497,6 +513,19 @@ func runC05(cfg Config) {
 	lfsReadCases(cfg, rep, m, rand.New(rand.NewSource(cfg.Seed^0x1f5)), cfg.N(30, 800))
 	c05CLI(cfg, rep, rng)
 	rep.Write(cfg.Out)
+}
+
+// gnutarFailed reports a failing UnTar onto the GNU-tar writer.  One cause is a consequence of the recorded finding
+// gnutar.header-mode.filemode-bits: the os.FileMode bits TarWriter puts into the header's mode field (2^21 and above for
+// every directory, link, device and set-id file) can only be held by a GNU header, extended attributes only by a PAX
+// header, so archive/tar refuses such an entry when it has an xattr ("PAX cannot encode Mode=..."); anything else is new.
+func gnutarFailed(monitor func(what, caseLine, impl, sig string), err error, caseLine string) {
+	if strings.Contains(err.Error(), "cannot encode Mode=") {
+		monitor("untar to a GNU tar stream fails on an entry with extended attributes whose header mode field holds os.FileMode bits: "+err.Error(),
+			caseLine, "", "gnutar.header-mode.filemode-bits")
+		return
+	}
+	monitor("untar to a GNU tar stream failed: "+err.Error(), caseLine, "", "")
 }
 
 func diffLines(want, got []string) string {
